@@ -157,7 +157,7 @@ def chain_shapes(tier, rng):
     if tier == "quick":
         pick2, pickm, pick3, pick3t = rng.sample(typed2, 150), rng.sample(mixed2, 50), rng.sample(ops3, 24), rng.sample(typed3, 40)
     else:
-        pick2, pickm, pick3, pick3t = rng.sample(typed2, 1000), rng.sample(mixed2, 500), rng.sample(ops3, 150), rng.sample(typed3, 300)
+        pick2, pickm, pick3, pick3t = rng.sample(typed2, 800), rng.sample(mixed2, 500), rng.sample(ops3, 150), rng.sample(typed3, 300)
     for k, (ops, ty) in enumerate(pick2 + pickm):
         out.append({"ops": list(ops), "ty": "".join(ty), "ctx": ("val", "bool")[k % 2], "form": "leaf"})
     for k, ops in enumerate(pick3):
